@@ -78,8 +78,13 @@ def caterpillar(leaves, left=True):
 def random_deep_input(rng, no, ns, cat_p=0.7):
     """Plain input whose species tree is (with probability cat_p) a caterpillar: the deepest shape for its size."""
     d = random_plain_input(rng, no, ns)
-    if rng.random() < cat_p:
-        d["st"] = caterpillar([SP_NAMES[i] for i in range(ns)], rng.random() < 0.5)
+    r = rng.random()
+    sl = [SP_NAMES[i] for i in range(ns)]
+    if r < cat_p * 0.6 or ns < 4:
+        d["st"] = caterpillar(sl, rng.random() < 0.5)
+    elif r < cat_p:
+        k = rng.randint(2, ns - 2)       # two deep halves
+        d["st"] = (caterpillar(sl[:k], rng.random() < 0.5), caterpillar(sl[k:], rng.random() < 0.5))
     if rng.random() < 0.3:
         d["ot"] = caterpillar([f"g{i}" for i in range(no)], rng.random() < 0.5)
     return d
